@@ -153,6 +153,19 @@ func c05GenSeq(r *verifh.Rng) []verifh.Section {
 		secs = append(secs, verifh.Section{Cfg: fmt.Sprintf("kind=tlimit mode=seq n=%d", n),
 			Ops: c5.SeqOps(r, n, r.Range(10, 40), true, ret)})
 	}
+	// TimeoutLimit with parked borrowers: `bwait` parks when the limit is full, a later `return` has to wake one
+	for i := 0; i < verifh.Scale(10, 150); i++ {
+		n := r.Pick(1, 1, 2, 3, r.Range(1, 5))
+		ops := c5.SeqOps(r, n, r.Range(8, 30), true, ret)
+		var out []string
+		for _, o := range ops {
+			if (o == "try" || o == "borrow") && r.Chance(1, 2) {
+				o = "bwait"
+			}
+			out = append(out, o)
+		}
+		secs = append(secs, verifh.Section{Cfg: fmt.Sprintf("kind=tlimit mode=seq n=%d", n), Ops: out})
+	}
 	for i := 0; i < verifh.Scale(50, 700); i++ {
 		n := r.Pick(1, 1, 2, 3, r.Range(1, 6))
 		maxage := r.Pick(0, 10, 100, 100)
@@ -361,9 +374,30 @@ func c05StartLimit(cfg verifh.Cfg) (func(op []string) string, func()) {
 	return step, nil
 }
 
+// c05Parked counts the goroutines parked in the select of Cond.WaitWithTimeout (from the goroutine dump:
+// state "select", frame syncx.(*Cond).WaitWithTimeout).
+func c05Parked() int {
+	buf := make([]byte, 1<<20)
+	buf = buf[:runtime.Stack(buf, true)]
+	k := 0
+	for _, g := range strings.Split(string(buf), "\n\n") {
+		nl := strings.IndexByte(g, '\n')
+		if nl < 0 {
+			continue
+		}
+		if strings.Contains(g[:nl], "[select") && strings.Contains(g, "syncx.(*Cond).WaitWithTimeout") {
+			k++
+		}
+	}
+	return k
+}
+
 func c05StartTimeoutLimit(cfg verifh.Cfg) (func(op []string) string, func()) {
 	n := cfg.Int("n", 1)
 	l := NewTimeoutLimit(n)
+	base := c05Parked()
+	pending := 0                      // Borrow calls parked in cond.WaitWithTimeout (bwait)
+	wres := make(chan error, 1<<10) // results of the bwait calls
 	step := func(op []string) string {
 		switch op[0] {
 		case "try":
@@ -373,9 +407,43 @@ func c05StartTimeoutLimit(cfg verifh.Cfg) (func(op []string) string, func()) {
 			return "refused"
 		case "borrow":
 			return c05ErrTok(l.Borrow(200 * time.Microsecond))
+		case "bwait":
+			// Borrow with a long timeout on its own goroutine: it returns at once (a permit was free) or is
+			// SEEN parked in the select of WaitWithTimeout; it stays there until a Return signals it
+			go func() { wres <- l.Borrow(60 * time.Second) }()
+			if !c5.WaitUntil(10*time.Second, func() bool { return len(wres) > 0 || c05Parked()-base > pending }) {
+				return "stuck"
+			}
+			if len(wres) > 0 {
+				return c05ErrTok(<-wres)
+			}
+			pending++
+			return "waiting"
 		case "return":
-			return c05ErrTok(l.Return())
+			err := l.Return()
+			if err != nil || pending == 0 {
+				return c05ErrTok(err)
+			}
+			// Signal is a rendezvous with a parked receiver: delivered means one waiter is no longer parked
+			// the moment Return comes back; not delivered means all of them still are
+			if c05Parked()-base == pending {
+				return "ok woke=0"
+			}
+			select {
+			case e := <-wres:
+				pending--
+				if e == nil {
+					return "ok woke=1" // the woken Borrow got the permit just returned
+				}
+				return "ok woke=" + c05ErrTok(e)
+			case <-time.After(10 * time.Second):
+				return "ok woke=lost"
+			}
 		case "probe":
+			if pending > 0 {
+				// the public probe would Return (and thereby signal the parked callers): read the channel instead
+				return fmt.Sprintf("free=%d", cap(l.limit.pool)-len(l.limit.pool))
+			}
 			return fmt.Sprintf("free=%d", c05Probe(l, n))
 		case "run":
 			return c05RunSem(op, n, func(r *verifh.Rng) bool {
@@ -386,7 +454,23 @@ func c05StartTimeoutLimit(cfg verifh.Cfg) (func(op []string) string, func()) {
 		}
 		return "bad-op"
 	}
-	return step, nil
+	return step, func() {
+		// let the parked Borrow calls of this section go: free a slot, signal, collect
+		for ; pending > 0; pending-- {
+			select {
+			case <-l.limit.pool:
+			default:
+			}
+			select {
+			case l.cond.signal <- struct{}{}:
+			case <-time.After(time.Second):
+			}
+			select {
+			case <-wres:
+			case <-time.After(time.Second):
+			}
+		}
+	}
 }
 
 func c05StartPool(cfg verifh.Cfg) (func(op []string) string, func()) {
